@@ -21,7 +21,7 @@ R20.4 emission: when the decision is DTX (and on the SILK nBytes==0 path) the
 R20.5 decoder: payloads of <= 1 byte are routed to concealment and do not
       conceal more than the TOC duration.
 """
-from .. import sx, cfg as cfgm, guards, templates as T, absint, decide
+from .. import sx, cfg as cfgm, guards, templates as T, absint, decide, roles
 from ..compdb import AnalysisBroken
 
 EXPLANATION = (
@@ -354,7 +354,11 @@ def r20_4(rep, prog):
 
 
 def r20_5(rep, prog):
-    f = prog.fn('opus_decode_frame')
+    cands = roles.holding(roles.frame_decoders(prog), lambda n: n[0] == 'call' and sx.callee_name(n) in ('silk_Decode', 'celt_decode_with_ec', 'celt_decode_with_ec_dred'))
+    if len(cands) != 1:
+        rep.unresolved('R20.5', 'per-frame decoder body not unique: %s' % [c.name for c in cands])
+        return
+    f = cands[0]
     rep.functions.add(f.name)
     cf = cfgm.CFG(f)
     pl, pd, pf = f.param_index('len'), f.param_index('data'), f.param_index('frame_size')
@@ -373,7 +377,7 @@ def r20_5(rep, prog):
         return any(sx.key(lv) == ('param', pd) and sx.int_val(n[2]) == 0 for n, lv in st_)
     hits = [b for b in hits if nulls_data(b)]
     if len(hits) != 1:
-        rep.violated('R20.5', inst, f.where(), 'no `len <= 1` branch that sets data = NULL in opus_decode_frame (%d found)' % len(hits), key='dec-dtx')
+        rep.violated('R20.5', inst, f.where(), 'no `len <= 1` branch that sets data = NULL in %s (%d found)' % (f.name, len(hits)), key='dec-dtx')
         return
     region = T.controlled_region(cf, hits[0], True)
     stores, rets, calls = T.region_effects(cf, f, region)
